@@ -26,7 +26,9 @@ IMAGES = ["banner.png", "songbn.JPG", "bn.png", "xbg.png", "background.jpeg", "c
           "Banner.PNG", "mybanner2.png", "bnx.png", "bgm.png", "cd.png", "xjk_.png", "disc.png",
           "ALBUMART.JPG", "x-CD.gif", "BG.PNG", "cdtitle", "jk_banner.png", "AlbumArt-CD.jpg",
           "cdtitle-bg.gif", "banner-bg.png", "jacket-cd.png", "jk_bn.png", "..banner", "...bn", "..bg",
-          "..-cd", ".banner", "cover.png ", "bn.png\t", "my banner.png ", "._banner.png"]
+          "..-cd", ".banner", "cover.png ", "bn.png\t", "my banner.png ", "._banner.png",
+          # a backslash is an ordinary file-name character here (POSIX, PyFilesystem)
+          "art\\cover.png", "gfx\\bn.png", "sub\\banner.png"]
 AUDIO = ["x.ogg", "x.MP3", "song.wav", "a.oga", "x.ogg.bak", "mp3", "x.flac", "X.OGG", "song.ogg ",
          "..ogg", "._x.ogg"]
 OTHER = ["readme.txt", "notes", "thumbs.db", "x.lrc", "video.avi"]
@@ -51,7 +53,7 @@ def _simfile_bytes(rng, fmt, assets, stray, enc):
         if v is None:
             lines.append("#%s;" % k)
         else:
-            lines.append("#%s:%s;" % (k, v))
+            lines.append("#%s:%s;" % (k, gen.esc(v)))     # (a backslash in a name is written escaped)
     if stray == "between":
         lines.append("stray between")
     if rng.random() < 0.5:
@@ -133,6 +135,9 @@ def _gen_song_dir(rng, d, files, dirs, prop):
                 elif r < 0.9 and subs and subfiles[subs[0]]:
                     n = rng.choice(subfiles[subs[0]])
                     v = subs[0] + "/" + (n if rng.random() < 0.5 else _case_variant(rng, n))
+                    if rng.random() < 0.15:
+                        # Windows-style spelling: names no file here (the separator is '/')
+                        v = v.replace("/", "\\")
                 elif r < 0.93:
                     v = "nosuchdir/" + rng.choice(pool)           # file in a missing sub-directory
                 elif r < 0.96 and present:
